@@ -64,7 +64,10 @@ static int on_url(http_parser *parser, const char *at, size_t length)
 			return -1;
 		}
 		if (handler->create != NULL) {
-			(handler->create(connection));
+			if (unlikely(handler->create(connection) < 0)) {
+				connection->status_code = HTTP_INTERNAL_SERVER_ERROR;
+				return -1;
+			}
 		}
 
 		connection->parser_settings.on_header_field = handler->on_header_field;
@@ -131,7 +134,15 @@ static enum bs_read_callback_return read_start_line(void *context, uint8_t *buf,
 			connection->status_code = HTTP_BAD_REQUEST;
 		}
 		send_http_error_response(connection);
-		free_connection(connection);
+		if (connection->free_context != NULL) {
+			/*
+			 * The url handler already created its context while the
+			 * start line was parsed. It owns the connection now.
+			 */
+			connection->free_context(connection);
+		} else {
+			free_connection(connection);
+		}
 		return BS_CLOSED;
 	}
 	return BS_OK;
@@ -142,6 +153,7 @@ int init_http_connection2(struct http_connection *connection, const struct http_
 	connection->is_local_connection = is_local_connection;
 	connection->status_code = 0;
 	connection->server = server;
+	connection->free_context = NULL;
 	connection->compression_level = compression_level;
 	http_parser_settings_init(&connection->parser_settings);
 	connection->parser_settings.on_url = on_url;
